@@ -68,9 +68,11 @@ theorem norepl_feasible_iff (m n : Nat) :
     (∃ v : List Nat, v.length = m ∧ (∀ x ∈ v, x < n) ∧ consRel .unorderedNorepl v = true) ↔ m ≤ n :=
   norepl_feasible_aux m n
 
-/-- When a permutation constraint has more choices than options the code pre-removes every option. -/
+/-- When a permutation constraint has more *permanent* choices than options the code pre-removes
+    every option (branch infeasible); conditional choices are not counted (they need not be active
+    together). -/
 theorem perm_preRemoved_all (m n : Nat) (h : n < m) (i : Nat) (hi : i < m) :
-    (i, List.range n) ∈ preRemoved .permutation (List.replicate m n) false :=
+    (i, List.range n) ∈ preRemoved .permutation (List.replicate m n) true :=
   perm_preRemoved_all_aux m n h i hi
 
 /-- Architecture level: every enumerated architecture satisfies every constraint on the choices
@@ -84,6 +86,15 @@ theorem arch_satisfies_constraints (g : DSG) (a : Assign) (ha : admissible g a =
 theorem not_active_together_unconstrained (ty : ConsType) (idx : List Nat) (h : idx.length ≤ 1) :
     consRel ty idx = true :=
   consRel_of_length_le_one ty idx h
+
+/-- No pre-removal for a permutation constraint none of whose choices is permanent. -/
+theorem perm_no_preRemoval_when_conditional (nOpts : List Nat) :
+    preRemoved .permutation nOpts false = [] := by
+  have h : ((List.replicate nOpts.length false).filter id).length = 0 := by
+    induction nOpts.length with
+    | zero => simp
+    | succ m ih => simpa [List.replicate_succ] using ih
+  simp [preRemoved, preRemovedP, h]
 
 /-! Non-vacuity / concrete instances -/
 example : validIdxRow .linked false [some 1, none, some 1] = true := by decide
